@@ -72,6 +72,17 @@ def family_dist(tier, seed, n=None):
                     {"op": "probe", "call": wcall(), "paths": ["o1.a", "o1.b"]},
                     {"op": "explore", "call": mcall(), "paths": ["o1.a", "o1.b"], "dist_free": [] if extra else ["o1.a"]}]
         out.append({"id": "D15/%s/%d" % ("core" if core else "s%d" % seed, t), "world": world, "ops": ops, "tags": []})
+    # two weights read from non-random fields are SWAPPED between calls: the same total, another distribution
+    for t in range(2 if tier == "quick" else 6):
+        w1, w2 = [(3, 1), (1, 2), (4, 1)][t % 3]
+        fields = [fld("a", 3, False), fld("b", 1, False), fld("w1", 3, False, rand=False, init=w1), fld("w2", 3, False, rand=False, init=w2)]
+        ws = [W(V(1), F("w1")), W(R(4, 5) if t % 2 == 0 else V(6), F("w2"))]
+        world = one(fields, [blk("c1", [{"k": "dist", "e": F("a"), "ws": ws}])])
+        ex = {"op": "explore", "call": mcall(), "paths": ["o1.a", "o1.b"], "dist_free": ["o1.a"]}
+        ops = [{"op": "construct", "o": "o1"}, {"op": "call", "call": mcall()}, dict(ex),
+               {"op": "set", "p": "o1.w1", "v": bits(w2, 3)}, {"op": "set", "p": "o1.w2", "v": bits(w1, 3)}, dict(ex),
+               {"op": "call", "call": mcall()}, {"op": "set", "p": "o1.w1", "v": bits(w1, 3)}, {"op": "set", "p": "o1.w2", "v": bits(w2, 3)}, dict(ex)]
+        out.append({"id": "D15/swap/%d" % t, "world": world, "ops": ops, "tags": []})
     # bounds, values and weights that are EXPRESSIONS over non-random fields (c + 1 .. d + 1 with weight k + 1): each operand
     # keeps its place
     for t in range(3 if tier == "quick" else 9):
@@ -105,6 +116,9 @@ def family_dist_foreach(tier, seed):
         ws = [W(V(1), ix), W(V(2), B("sub", lit(n - 1), ix)), W(V(3), 1 if t % 2 else ix)]
         if t % 3 == 2:
             ws.append(W(R(0, 0), lit(1)))
+        if t % 3 == 0:
+            # a two-value range: both of its values are produced by every element that gives it weight
+            ws = [W(R(0, 1), lit(1)), W(V(3), ix), W(R(2, 2), B("sub", lit(n - 1), ix))]
         body = [{"k": "foreach", "l": "l", "v": "i", "it": False, "idx": True,
                  "body": [{"k": "dist", "e": {"k": "sub", "l": "l", "i": ix, "p": ""}, "ws": ws}]}]
         world = one(fields, [blk("c1", body)])
